@@ -516,6 +516,24 @@ def _prove_core(dom, hyps, light, g, timeout_ms, use_cvc5):
     return r, backend, m, formulas, lem
 
 
+def _cheap_core(dom, light, g):
+    """the solver-free half of _prove_core: congruence rewriting, then the exact field-identity test"""
+    if dom.defs:
+        _lem, rewrites = congruence_lemmas(dom, light, [g])
+        if rewrites:
+            for _ in range(4):
+                g2 = z3.substitute(g, *rewrites)
+                if g2.eq(g):
+                    break
+                g = g2
+            if z3.is_true(z3.simplify(g)):
+                return "congruence-rewriting"
+    from . import ringnf
+    if ringnf.identity(g) is True:
+        return "ringnf"
+    return None
+
+
 def discharge(dom, name, hyps, goal, timeout_ms=10000, use_cvc5=True, kind="unbounded", extra=None, light_hyps=None):
     """prove hyps => goal"""
     t0 = time.time()
@@ -525,6 +543,23 @@ def discharge(dom, name, hyps, goal, timeout_ms=10000, use_cvc5=True, kind="unbo
     hyps = [to_formula(h) for h in hyps]
     light = [to_formula(h) for h in light_hyps] if light_hyps is not None else hyps
     conds = _ite_conditions(dom, g) if dom.defs else []
+    if conds and len(conds) <= 4:
+        # first, without the solver's non-linear engine (whose time-out z3 does not always honour): every feasible case
+        # closed by exact methods alone
+        import itertools
+        how = set()
+        for vals in itertools.product([True, False], repeat=len(conds)):
+            ch = [c if v else z3.Not(c) for c, v in zip(conds, vals)]
+            if dom.quick_unsat(light + ch, timeout_ms=3000):
+                continue
+            gc = z3.simplify(z3.substitute(g, *[(c, z3.BoolVal(v)) for c, v in zip(conds, vals)]))
+            h = "trivial" if z3.is_true(gc) else _cheap_core(dom, light + ch, gc)
+            if h is None:
+                how = None
+                break
+            how.add(h)
+        if how is not None:
+            return Result(name, "proved", time.time() - t0, "case-split(%d)+%s" % (len(conds), "+".join(sorted(how)) or "infeasible"), kind=kind)
     r, backend, m, formulas, lem = _prove_core(dom, hyps, light, g, min(timeout_ms, 3000) if conds else timeout_ms,
                                                use_cvc5 and not conds)
     if r != "unsat" and dom.defs:
